@@ -2,7 +2,7 @@
    (Authenticity clause: see C07_authentic below once proofs/AuthProofs.v is in place.) *)
 From Coq Require Import List NArith ZArith.
 From Coq.Strings Require Import Byte.
-From SP Require Import Bytes Params Msgpack Crypto Errors Packets Chunker Rand Sign Verify SignProofs SignAuthProofs.
+From SP Require Import Bytes Params Msgpack Crypto Errors Packets Chunker Rand Sign Verify SignProofs SignAuthProofs SignAuthLocated.
 Import ListNotations.
 
 Section C07.
@@ -47,8 +47,8 @@ Theorem C07_authentic (c : crypto) (Hsha : forall x, length (sha512 c x) = 64%na
   (exists v nonce hdr rest,
       In (EvDetached v nonce msg) L /\
       read_header_bytes sigfile = Ok (hdr, rest) /\ hdr = sig_header_bytes v mt_detached pk nonce)
-  \/ CryptoBreak c pk L.
-Proof. exact (detached_authentic c Hsha vd kr msg sigfile pk L). Qed.
+  \/ DetBreak c vd pk L msg sigfile.
+Proof. exact (detached_authentic_located c Hsha vd kr msg sigfile pk L). Qed.
 Print Assumptions C07_authentic.
 
 Print Assumptions C07_roundtrip.
